@@ -33,6 +33,8 @@ POOL_QUICK = [':nth-child(2n+1)', ':lang(en)', ':nth-of-type(odd)', ':-soup-cont
 POOL_MORE = [':nth-last-child(-n+3 of li)', ':lang("de-*", fr)', ':-soup-contains-own(x, y)', 'svg|circle[r="5" i]',
              ':nth-last-of-type(2)', ':has(> a + b)', ':not(:dir(ltr))', '#i1.k[title~=abc]', ':where(:nth-child(even))',
              'p:first-child ~ p:lang(en)', ':checked, :default', ':root:empty', '\\31 a', ':dir(ltr):nth-child(3)']
+DETACHED_SELECTORS = ['div:first-child', 'div:nth-child(1)', ':only-child', 'div:last-of-type', ':nth-last-child(-n+1)',
+                      ':root:nth-of-type(1)']
 _doc = [None]
 
 
@@ -59,6 +61,11 @@ def make_op(op, private_docs):
         return f
     if kind == 'purge':
         return lambda: ('purged', sv.purge())
+    if kind == 'match-detached':
+        import bs4 as _bs4
+        frag = _bs4.BeautifulSoup('', 'html.parser').new_tag('div', attrs={'id': f't{op["tid"]}'})
+        frag.append(_bs4.BeautifulSoup('', 'html.parser').new_tag('p'))
+        return lambda: ('match-detached', sv.match(p, frag, NS, custom=CUSTOM))
     doc = witness() if op.get('doc', 'shared') == 'shared' else private_docs[op['tid']]
     els = doc.all_elements()
     target = doc.target if op.get('target', -1) < 0 else els[op['target'] % len(els)]
@@ -203,6 +210,27 @@ def run_single_preemptions(col, ctx, pool, opcode):
                 col.fail(bkt, case, d)
         if not complete:
             break
+    if complete:
+        for a in DETACHED_SELECTORS[:3]:
+            for b in DETACHED_SELECTORS[:3]:
+                opa = {'op': 'match-detached', 'p': a}
+                npts, _res = sched.count_yield_points(make_op(dict(opa, tid=0), [None]))
+                for point in range(1, npts + 2):
+                    idx += 1
+                    if idx % nsh != k:
+                        continue
+                    if time.time() > ctx['t_end']:
+                        col.extra['budget_exhausted'] = 1
+                        complete = False
+                        break
+                    case = {'threads': [[dict(opa)], [{'op': 'match-detached', 'p': b}]],
+                            'schedule': {'kind': 'single', 'point': point}, 'opcode': False}
+                    fails, st = run_case(case, False)
+                    col.count()
+                    if st['switches'] >= 1:
+                        col.nontrivial_case(['single-detached', a, b, point], None)
+                    for bkt, d in fails[:2]:
+                        col.fail(bkt, case, d)
     col.extra['single_preemption_complete'] = int(complete)
     col.extra['pairs'] = len(pairs) if k == 0 else 0
 
@@ -219,6 +247,8 @@ def gen_mixed(ch, pool):
                 ops.append({'op': 'compile', 'p': p, 'purge': ch.p(0.7)})
             elif r == 5:
                 ops.append({'op': 'purge'})
+            elif r == 6:
+                ops.append({'op': 'match-detached', 'p': ch.pick(DETACHED_SELECTORS)})
             else:
                 ops.append({'op': ch.pick(('select', 'match', 'filter', 'closest')), 'p': p,
                             'doc': ch.pick(('shared', 'private')), 'target': ch.i(-1, 30)})
